@@ -36,6 +36,8 @@ pub enum F1 {
     Tanh,
     Cosh,
     Abs,
+    /// `f32::signum`: 1.0 for positive values and +0.0, -1.0 for negative values and -0.0, NaN for NaN
+    Signum,
 }
 
 #[derive(Clone, Copy, Hash, PartialEq, Eq, Debug)]
@@ -154,6 +156,7 @@ impl Arena {
                     F1::Tanh => v.tanh(),
                     F1::Cosh => v.cosh(),
                     F1::Abs => v.abs(),
+                    F1::Signum => v.signum(),
                 }
             }
         })
@@ -325,6 +328,7 @@ impl Sf32 {
                 F1::Tanh => x.tanh(),
                 F1::Cosh => x.cosh(),
                 F1::Abs => x.abs(),
+                F1::Signum => x.signum(),
             });
         }
         Sf32(with(|a| a.mk(Node::F(k, self.0))))
@@ -408,10 +412,7 @@ impl Sf32 {
         }
     }
     pub fn signum(self) -> Sf32 {
-        match cv(self.0) {
-            Some(x) => c(x.signum()),
-            None => not_encodable("signum of a symbolic value"),
-        }
+        self.f1(F1::Signum)
     }
     /// `powi`: a product in evaluation order (`x`, `x*x`, `(x*x)*x`, …) — LLVM lowers `powi(x, 2)`
     /// to `x*x`; for n > 2 the association order is a stated modelling assumption.
@@ -1160,6 +1161,7 @@ impl Differ {
                             let cnd = with(|a| a.mkc(Cond::Lt(x, R::C(0.0f32.to_bits()))));
                             ite(cnd, -dx, dx)
                         }
+                        F1::Signum => c(0.0),
                     }
                 }
             }
@@ -1272,6 +1274,7 @@ pub fn eval(e: Sf32, env: &HashMap<String, f32>, memo: &mut HashMap<R, f32>) -> 
                 F1::Tanh => v.tanh(),
                 F1::Cosh => v.cosh(),
                 F1::Abs => v.abs(),
+                F1::Signum => v.signum(),
             }
         }
     };
